@@ -25,7 +25,7 @@ WORKER = os.path.join(env.VERIF, 'checks', 'c19_worker.py')
 CHEAP = ['str', 'fmt_h', 'fmt_A', 'fmt_m', 'fmt_a', 'atoms_order', 'chiral_morgan', 'smiles_atoms_order', 'sssr',
          'atoms_rings_sizes', 'connected_components', 'linear_hash_set', 'morgan_hash_set', 'stereo_sets', 'labels']
 MEDIUM = ['linear_fingerprint', 'morgan_fingerprint', 'automorphism', 'self_sub', 'self_sub_all', 'kekule', 'thiele',
-          'canonicalize', 'neutralize']
+          'canonicalize', 'neutralize', 'clean_stereo', 'clean_isotopes', 'implicify_hydrogens', 'explicify_hydrogens']
 EXPENSIVE = ['standardize', 'enumerate_kekule', 'enumerate_tautomers']
 N_SMARTS = 36
 EXTRA_SMILES = [
@@ -59,7 +59,8 @@ CORE_SMILES = [
 FILES = ['isomorphism.sdf', 'mcs.sdf', 'standardize.sdf', 'arenes.sdf', 'hbonds.sdf', 'depict.sdf', 'implicit.sdf',
          'morgan_ruiner.sdf', 'stereo.sdf', 'MR.rdf', 'ions.rdf', 'standardize.rdf', 'implicit.mrv', 'cycle.sdf']
 RXN_OBS = ['rxn_str', 'rxn_fmt_m', 'rxn_fmt_h', 'rxn_cgr', 'rxn_cgr_order', 'rxn_centers', 'rxn_canonicalize', 'rxn_standardize',
-           'rxn_kekule', 'rxn_thiele', 'rxn_members']
+           'rxn_kekule', 'rxn_thiele', 'rxn_members', 'rxn_clean_stereo', 'rxn_clean_isotopes', 'rxn_implicify_hydrogens',
+           'rxn_explicify_hydrogens']
 RXN_SMILES = ['CCO.CC(=O)O>>CC(=O)OCC.O', '[CH3:1][CH2:2][OH:3].[CH3:4][C:5](=[O:6])[OH:7]>>[CH3:4][C:5](=[O:6])[O:3][CH2:2][CH3:1].[OH2:7]',
               'c1ccccc1.Cl>[Al](Cl)(Cl)Cl>Clc1ccccc1', 'C=C.C=CC=C>>C1CCC=CC1', 'CC(=O)C>>CC(O)=C', 'OC(=O)c1ccccc1.CN>>CNC(=O)c1ccccc1.O',
               '[Na+].[OH-].CCl>>CO.[Na+].[Cl-]', 'C[C@H](O)C(=O)O>>C[C@@H](O)C(=O)O', 'C/C=C/C.BrBr>>C[C@H](Br)[C@@H](C)Br',
@@ -105,10 +106,10 @@ def make_events(rng, n_mols, tier, cfg, corpus=None):
             rng.shuffle(names)
             ev = [['load', i]]
             ev += [['obs', i, n, 'first'] for n in names]
-            ev += [['obs', i, n, 'again'] for n in rng.sample(names, 5)]
+            ev += [['obs', i, n, 'again'] for n in rng.sample(names, 9)]
             if rng.random() < 0.6:
                 ev.append(['copy', i])
-                ev += [['obs_copy', i, n, 'copy'] for n in rng.sample(names, 5)]
+                ev += [['obs_copy', i, n, 'copy'] for n in rng.sample(names, 6)]
             ev.append(['drop', i])
             per.append(ev)
             continue
@@ -419,7 +420,7 @@ def _main(a, scratch):
             'samples': samples or [{'note': 'none'}],
             'executions': T['execs'] * len(slices), 'molecules': len(chosen), 'corpus_size': len(corpus_all),
             'distinct_configurations': len(configs_used),
-            'observers': len(CHEAP) + len(MEDIUM) + len(EXPENSIVE) + 2 * N_SMARTS,
+            'observers': len(CHEAP) + len(MEDIUM) + len(EXPENSIVE) + 2 * N_SMARTS + len(RXN_OBS),
             'observations_per_hour': int(total_obs / max(wall, 1e-9) * 3600),
             'executions_per_hour': int(T['execs'] * len(slices) / max(wall, 1e-9) * 3600),
             'fault_kinds': 'none in the classical sense: perturbation of hash seed, address-space layout, GC mode, heap layout, '
